@@ -217,16 +217,47 @@ def strip_generics(ts):
     return out
 
 
-def find_fn_body_open(toks, i, end, verus):
-    """toks[i] is 'fn'. Return index of body '{' or of terminating ';'.
+EXPR_CONT = {'==>', '<==', '<==>', '&&', '||', '&&&', '|||', '==', '!=', '=', '+', '-', '*', '/', '%', '|', '<', '>', '<=',
+             '>=', '=>', '!', '&', '^', '<<', '>>', '=~=', '!==', '===', ':', 'in', 'return', 'by', 'implies'}
 
-    In Verus text with spec clauses the body brace is the first depth-0 '{'
-    that directly follows a ',' (templates end their clause lists with a
-    trailing comma); in plain Rust it is the first depth-0 '{'.
-    """
+
+def find_spec_body_open(toks, j, end):
+    """toks[j:] is a list of Verus spec clauses (requires/ensures/invariant/decreases ...) followed by a body
+    block. Returns the index of the body's '{'.  A depth-0 '{' belongs to a clause expression when it follows
+    `else`, closes a pending `if`/`match` head, or follows an operator; otherwise it opens the body."""
+    pending = 0
+    while j < end:
+        t = toks[j]
+        tx = t.text
+        if t.kind == 'punct' and tx in ('(', '['):
+            j = match_close(toks, j) + 1
+            continue
+        if t.kind == 'ident' and tx in ('if', 'match') and toks[j - 1].text != '.':
+            pending += 1
+        elif t.kind == 'punct' and tx == '{':
+            prev = toks[j - 1].text
+            if prev == ',':
+                return j
+            if prev == 'else':
+                j = match_close(toks, j) + 1
+                continue
+            if pending > 0:
+                pending -= 1
+                j = match_close(toks, j) + 1
+                continue
+            if prev in EXPR_CONT:
+                j = match_close(toks, j) + 1
+                continue
+            return j
+        elif t.kind == 'punct' and tx == ';':
+            return j
+        j += 1
+    raise ValueError('no body after spec clauses at line %d' % toks[min(j, len(toks) - 1)].line)
+
+
+def find_fn_body_open(toks, i, end, verus):
+    """toks[i] is 'fn'. Return index of body '{' or of terminating ';'."""
     j = i
-    depth = 0
-    seen_spec = False
     while j < end:
         t = toks[j]
         tx = t.text
@@ -237,14 +268,9 @@ def find_fn_body_open(toks, i, end, verus):
             if tx == ';':
                 return j
             if tx == '{':
-                if not seen_spec:
-                    return j
-                if toks[j - 1].text == ',':
-                    return j
-                j = match_close(toks, j) + 1
-                continue
+                return j
         elif verus and t.kind == 'ident' and tx in SPEC_CLAUSE_KW and toks[j - 1].text != '.':
-            seen_spec = True
+            return find_spec_body_open(toks, j, end)
         j += 1
     raise ValueError('no body for fn at line %d' % toks[i].line)
 
